@@ -25,7 +25,7 @@ Correct(r) == IF Len(r.out) = 6 /\ Len(r.a) = 1 /\ Len(r.b) = 1 /\ r.op = "*" TH
 TBinOp == LET r == Events[l] IN
   /\ l <= Len(Events) /\ r.e = "BinOp" /\ l' = l + 1
   /\ r.k \in DOMAIN Graph /\ Graph[r.k] = r.ret /\ r.num \in {"f", "d", "l"} /\ r.op \in {"+", "-", "*", "/"}
-  /\ bad' = IF r.exact /\ Correct(r) THEN bad ELSE Append(bad, [cls |-> "binop", k |-> r.k, num |-> r.num, a |-> r.a, b |-> r.b, out |-> r.out])
+  /\ bad' = IF (r.exact /\ Correct(r)) \/ Len(bad) >= 400 THEN bad ELSE Append(bad, [cls |-> "binop", k |-> r.k, num |-> r.num, a |-> r.a, b |-> r.b, out |-> r.out])
   /\ seen' = seen \cup {<<r.k, r.num>>}
 TFinish == /\ l = Len(Events) + 1 /\ l' = l + 1
            /\ JsonSerialize(IOEnv.OUT, [bad |-> bad, covered |-> Cardinality(seen),
